@@ -3,6 +3,7 @@ CONSTANTS
   Dev_PruneWithoutReap = TRUE
   Dev_AfterSpawnKillDetached = TRUE
   Dev_BuiltinIgnoreList = TRUE
+  Dev_AddEmptyNameReturns = TRUE
   Configs <- mc_Configs
   Requests <- mc_Requests
   MaxReq = 1
